@@ -7,7 +7,7 @@ package vh
 //	int   M in "", int8..int64, uint..uint64, float32, float64, named
 //	str   M in "", named, bytes, stringer
 //	list  M in "", []int, []string, []float64, [3]int, []map
-//	hash  M in "", map[string]int, map[string]string, map[int]string, map[int64]string, map[uint64]string, map[iface], struct, ptrstruct, meth, ptrmeth
+//	hash  M in "", map[string]int, map[string]string, map[int]string, map[int64]string, map[uint64]string, map[iface], struct, ptrstruct, nilptrstruct, nilptrmap, outer, meth, ptrmeth
 //	ptr   pointer to A[0]      time  I = unix seconds (UTC)
 
 import (
@@ -45,6 +45,13 @@ type ZMeth struct {
 
 func (z *ZMeth) Label() string { return "label:" + z.Name }
 func (z ZMeth) Twice() int     { return z.N * 2 }
+
+// ZOuter holds a pointer to a struct (nil unless the description has an "Author" entry)
+type ZOuter struct {
+	Name   string
+	Author *ZStruct
+	Meta   *map[string]int
+}
 
 func ZPtr(e *E) *E         { return &E{K: "ptr", A: []*E{e}} }
 func ZTime(u int64) *E     { return &E{K: "time", I: u} }
@@ -192,6 +199,18 @@ func zooGo(e *E, variant int) interface{} {
 				out[e.Ks[i]] = zooGo(e.A[i], variant)
 			}
 			return out
+		case "nilptrstruct":
+			return (*ZStruct)(nil)
+		case "nilptrmap":
+			return (*map[string]int)(nil)
+		case "outer":
+			o := ZOuter{Name: "o"}
+			for _, i := range idx {
+				if e.Ks[i] == "Author" {
+					o.Author = &ZStruct{Name: e.A[i].S}
+				}
+			}
+			return o
 		case "meth", "ptrmeth":
 			s := ZMeth{Name: "n"}
 			for _, i := range idx {
